@@ -88,3 +88,16 @@ Theorem C11_back_to_back : forall (l : list CodecSeq.item) rest, Forall CodecSeq
               CodecSeq.dec_seq (map CodecSeq.kind_of l) (img ++ rest) = Ok (l, rest).
 Proof. exact CodecSeq.seq_roundtrip. Qed.
 Print Assumptions C11_back_to_back.
+
+(* non-vacuity of C11_back_to_back: a stream of two Count-Min sketches, evaluated *)
+Example C11_back_to_back_premises_hold :
+  Forall CodecSeq.item_wf [CodecSeq.ICms (mkCms 2 2 5 [[1; 2]; [3; 4]]); CodecSeq.ICms (mkCms 2 2 5 [[1; 2]; [3; 4]])] /\
+  match CodecSeq.enc_seq [CodecSeq.ICms (mkCms 2 2 5 [[1; 2]; [3; 4]]); CodecSeq.ICms (mkCms 2 2 5 [[1; 2]; [3; 4]])] with
+  | Ok img => length img = 112%nat /\
+              CodecSeq.dec_seq [CodecSeq.KCms; CodecSeq.KCms] (img ++ [9; 9]) =
+                Ok ([CodecSeq.ICms (mkCms 2 2 5 [[1; 2]; [3; 4]]); CodecSeq.ICms (mkCms 2 2 5 [[1; 2]; [3; 4]])], [9; 9])
+  | _ => False
+  end.
+Proof.
+  split; [repeat constructor; exact C11_premises_hold|]. vm_compute. split; reflexivity.
+Qed.
